@@ -35,7 +35,7 @@ EXPLANATION = (
     "carquet_column_index_add_page records a page as a null page exactly when its caller says so and "
     "copies exactly the non-empty bounds it was given; (8) the page writer's update_statistics_i32 / _i64, "
     "executed for two consecutive batches over every tuple of a 4-value alphabet (they only compare and copy, "
-    "so the ordering is all that matters), record the minimum and maximum of everything added. Decides these clauses, not that written min/max "
+    "so the ordering is all that matters), record the minimum and maximum of everything added. (9) in reader/statistics.c leaf indices and schema-element indices are not mixed - also through a constant offset or a parameter whose space is fixed by the callee it is handed to (R13, shared with C02.5): the statistics of a column are compared using that column's own physical type. Decides these clauses, not that written min/max "
     "bound the data for every input, nor floating-point and byte-array orderings beyond the "
     "comparator-table clause.")
 
